@@ -16,7 +16,7 @@
    decided by the index, not by [len(lastKey) > 0]); [key_pinned] is the code
    of the pinned tree, kept for the refutations. *)
 From Coq Require Import ZArith List Bool.
-From Tally Require Import Base.Obs Gen.Params.
+From Tally Require Import Base.ObsCore Gen.Params.
 Import ListNotations.
 Open Scope Z_scope.
 
